@@ -35,7 +35,7 @@ const PAYLOADS: [&str; 26] = [
     "<\u{1}MK/>",
     "} MK = {</style><MK/>",
 ];
-const CHANNELS: [&str; 5] = ["plain", "quoted", "tag", "legend-name", "legend-decl"];
+const CHANNELS: [&str; 7] = ["plain", "quoted", "tag", "legend-name", "legend-decl", "tag-after-identifier", "legend-name-after-identifier"];
 const CONTEXTS: [&str; 4] = ["alone", "in-box", "touching-line", "two-rows"];
 
 fn build(channel: usize, context: usize, payload: &str) -> String {
@@ -44,6 +44,9 @@ fn build(channel: usize, context: usize, payload: &str) -> String {
         1 => format!("\"{}\"", payload),
         2 => format!("{{{}}}", payload),
         3 => return format!("{}# Legend:\n{} = {{fill:red}}\n", ctx_diagram(context), payload),
+        // a valid identifier first: a grammar that accepts a valid prefix must still not let the rest through
+        6 => return format!("{}# Legend:\nzz{} = {{fill:red}}\n", ctx_diagram(context), payload),
+        5 => format!("{{zz{}}}", payload),
         _ => return format!("{}# Legend:\nzz = {{{}}}\n", ctx_diagram(context), payload),
     };
     match context {
